@@ -14,10 +14,18 @@ func liEvents(rng *Rng, w *liWorld, bn uint64, pool []common.Hash, wrongV2 bool,
 	if rng.Chance(25) {
 		n = 3 + rng.Intn(3) // several info updates in one block
 	}
+	// on the chain every info update of a block carries that block's parent hash and timestamp (then the harness feeds the
+	// block as logs through the real log handlers); a third of the blocks keep independent values per update
+	same := rng.Chance(67)
+	sph, sts := hx(rng.Bytes(32)), liTimestamp(rng, bn, 0)
 	for i := 0; i < n; i++ {
 		switch k := rng.Intn(10); {
 		case k < 5:
-			toks = append(toks, fmt.Sprintf("i;%d;%s;%s;%s;%d", pos, hx(rng.Bytes(32)), hx(pool[1+rng.Intn(len(pool)-1)][:]), hx(rng.Bytes(32)), liTimestamp(rng, bn, uint64(i))))
+			ph, ts := hx(rng.Bytes(32)), liTimestamp(rng, bn, uint64(i))
+			if same {
+				ph, ts = sph, sts
+			}
+			toks = append(toks, fmt.Sprintf("i;%d;%s;%s;%s;%d", pos, hx(rng.Bytes(32)), hx(pool[1+rng.Intn(len(pool)-1)][:]), ph, ts))
 		case k < 9:
 			rid := []uint64{1, 1, 2, 3, 5, 4294967295}[rng.Intn(6)]
 			er := pool[rng.Intn(len(pool))]
